@@ -30,6 +30,8 @@ func init() {
 				Old: "\t\twalker.RegisterEnterArgumentVisitor(&visitor)\n", New: ""},
 			{Name: "pending-variables list of AllVariablesUsed no longer reset per document", File: "v2/pkg/astvalidation/operation_rule_all_variables_used.go", Rule: "C04-R2", Key: "state-reset/allVariablesUsedVisitor.variableDefinitions",
 				Old: "\ta.variableDefinitions = a.variableDefinitions[:0]\n}", New: "}"},
+			{Name: "pending-variables list reset moved to the Leave callback (skipped by a stopped walk; seeded change C04-2)", File: "v2/pkg/astvalidation/operation_rule_all_variables_used.go", Rule: "C04-R2", Key: "state-reset/allVariablesUsedVisitor.variableDefinitions",
+				Old: "\ta.variableDefinitions = a.variableDefinitions[:0]\n}", New: "}\n\nfunc (a *allVariablesUsedVisitor) LeaveDocument(operation, definition *ast.Document) {\n\ta.variableDefinitions = a.variableDefinitions[:0]\n}"},
 			{Name: "plan cache consulted before validation", File: execEngineGo, Rule: "C04-R3", Key: "getCachedPlan",
 				Old: "\tif result, err := operation.ValidateForSchema(e.config.schema, e.validationOptions...); err != nil {\n\t\treturn err\n\t} else if !result.Valid {\n\t\treturn result.Errors\n\t}\n",
 				New: "\tif result, err := operation.ValidateForSchema(e.config.schema, e.validationOptions...); err != nil {\n\t\treturn err\n\t} else if !result.Valid && len(options) == 0 {\n\t\treturn result.Errors\n\t}\n"},
